@@ -512,6 +512,7 @@ int main(int argc, char **argv)
 	vw_mkaddr(&LOCALDNS, &ALEN, "127.0.0.1", 5353);
 	{ const struct encoder *e[4] = { &s_base32_ops, &s_base64_ops, &s_base64u_ops, &s_base128_ops }; for (int k = 0; k < 4; k++) ref_calibrate(k, e[k]->encode); }
 	xp_init("C12", a.tier, 1024, a.budget_s);
+	xp_guard(NULL, &W.cur, 1);
 	if (a.replay) { xp_load_replay(a.replay); job(XC.job); return 0; }
 	hc_quiet();
 	xp_run_jobs(3 + 6, job, a.workers);
